@@ -56,6 +56,13 @@ def run(ctx) -> None:
     base = {f.key for f in ctx.findings}
     jobs = []
     for d in sorted((HERE / "benign").glob("*/patch.diff")):
+        try:
+            bmeta = json.loads((d.parent / "meta.json").read_text())
+        except Exception:
+            bmeta = {}
+        if prop in (bmeta.get("replay_excluded_for") or {}):
+            ctx.instance("CORPUS", f"benign/{d.parent.name}", f"excluded from the replay for {prop}: {bmeta['replay_excluded_for'][prop]}", nontrivial=False)
+            continue
         jobs.append(("benign", d.parent.name, prop, root))
     for d in sorted((HERE / "seeded").glob("*/meta.json")):
         try:
